@@ -283,6 +283,10 @@ class Outcome:
         self.coverage: dict[str, Any] = {}
         self.assumptions: list[str] = []
         self.notes: list[str] = []
+        # stale replay files of earlier runs would be misleading
+        if REPLAY.exists():
+            for f in REPLAY.glob(f'{prop}-*.json'):
+                f.unlink()
 
     def add(self, v: Violation) -> None:
         self.violations.append(v)
